@@ -22,13 +22,13 @@ var allSpecs = []HarnessSpec{
 	{Prop: "C03", Func: "ZZ_C03_FailStop", Tag: "shape=1", POR: true, Replay: "native", Params: map[string]int{"shape": 1, "__coarse": 1}},
 	{Prop: "C03", Func: "ZZ_C03_FailStop", Tag: "shape=2", POR: true, Replay: "native", Params: map[string]int{"shape": 2, "__coarse": 1}},
 	{Prop: "C03", Func: "ZZ_C03_FailStop", Tag: "shape=3", POR: true, Replay: "native", Params: map[string]int{"shape": 3, "failing": 1, "__coarse": 1}, TParams: map[string]int{"failing": 99}},
-	{Prop: "C04", Func: "ZZ_H_History", Tag: "prop=4", POR: true, Replay: "native", Twin: true, Params: map[string]int{"prop": 4, "steps": 2, "__coarse": 1}, TParams: map[string]int{"steps": 3, "two_cmds": 1}},
+	{Prop: "C04", Func: "ZZ_H_History", Tag: "prop=4", POR: true, Replay: "native", Twin: true, Params: map[string]int{"prop": 4, "steps": 2, "__coarse": 1}, TParams: map[string]int{"steps": 3, "slim": 1}},
 	{Prop: "C04", Func: "ZZ_H_History", Tag: "prop=4,cancelled-by-sibling", POR: true, Replay: "native", Params: map[string]int{"prop": 4, "steps": 2, "sibling_history": 1, "__coarse": 1}},
 	{Prop: "C04", Func: "ZZ_H_History", Tag: "prop=4,killed-part-way", POR: true, Replay: "native", Params: map[string]int{"prop": 4, "steps": 3, "kill_history": 1, "__coarse": 1}, TParams: map[string]int{"two_cmds": 1}},
 	{Prop: "C05", Func: "ZZ_H_Instances", POR: true, Replay: "native", Twin: true, Params: map[string]int{"steps": 3, "__coarse": 1}},
 	{Prop: "C04", Func: "ZZ_H_Instances", POR: true, Replay: "native", Params: map[string]int{"steps": 3, "__coarse": 1}},
-	{Prop: "C05", Func: "ZZ_H_History", Tag: "prop=5", POR: true, Replay: "native", Twin: true, Params: map[string]int{"prop": 5, "steps": 2, "__coarse": 1}, TParams: map[string]int{"steps": 3, "two_cmds": 1}},
-	{Prop: "C12", Func: "ZZ_H_History", Tag: "prop=12", POR: true, Replay: "native", Twin: true, Params: map[string]int{"prop": 12, "steps": 2, "__coarse": 1}, TParams: map[string]int{"steps": 3, "two_cmds": 1}},
+	{Prop: "C05", Func: "ZZ_H_History", Tag: "prop=5", POR: true, Replay: "native", Twin: true, Params: map[string]int{"prop": 5, "steps": 2, "__coarse": 1}, TParams: map[string]int{"steps": 3, "slim": 1}},
+	{Prop: "C12", Func: "ZZ_H_History", Tag: "prop=12", POR: true, Replay: "native", Twin: true, Params: map[string]int{"prop": 12, "steps": 2, "__coarse": 1}, TParams: map[string]int{"steps": 3, "slim": 1}},
 	{Prop: "C03", Func: "ZZ_C03_FailStop", Tag: "shape=5", POR: true, Replay: "native", Params: map[string]int{"shape": 5, "__coarse": 1}},
 	{Prop: "C03", Func: "ZZ_C03_FailStop", Tag: "shape=4", POR: true, Replay: "native", Params: map[string]int{"shape": 4, "failing": 1, "__coarse": 1}},
 	{Prop: "C06", Func: "ZZ_C03_FailStop", Tag: "shape=4", POR: true, Replay: "native", Params: map[string]int{"shape": 4, "failing": 1, "__coarse": 1}},
@@ -64,7 +64,7 @@ var allSpecs = []HarnessSpec{
 	{Prop: "C17", Func: "ZZ_C17_RunCommand", Replay: "native", Twin: true},
 	{Prop: "C17", Pkg: "internal/output", Func: "ZZ_C17_Group", POR: true, Replay: "native", Twin: true, Params: map[string]int{"maxchunks": 1, "__coarse": 1}, TParams: map[string]int{"maxchunks": 2}},
 	{Prop: "C17", Pkg: "internal/output", Func: "ZZ_C17_Prefixed", POR: true, Replay: "native", Twin: true, Params: map[string]int{"maxchunks": 1, "__coarse": 1}, TParams: map[string]int{"maxchunks": 2}},
-	{Prop: "C20", Pkg: "taskfile", Func: "ZZ_C20_Cache", Replay: "native", Twin: true, Params: map[string]int{"steps": 2}, TParams: map[string]int{"steps": 3, "two_cmds": 1}},
+	{Prop: "C20", Pkg: "taskfile", Func: "ZZ_C20_Cache", Replay: "native", Twin: true, Params: map[string]int{"steps": 2}, TParams: map[string]int{"steps": 3, "slim": 1}},
 	{Prop: "C20", Pkg: "taskfile", Func: "ZZ_C20_Insecure", Replay: "native", Twin: true},
 	{Prop: "C18", Func: "ZZ_C18_Kernel", Tag: "shape=2", POR: true, Replay: "native-race", Twin: true, Params: map[string]int{"shape": 2, "failing": 1, "__coarse": 1, "__race": 1}, TParams: map[string]int{"failing": 2}},
 	{Prop: "C18", Func: "ZZ_C18_Kernel", Tag: "shape=1", POR: true, Replay: "native-race", Params: map[string]int{"shape": 1, "failing": 1, "__coarse": 1, "__race": 1}},
